@@ -32,7 +32,7 @@ type c06plan struct {
 
 func c06plans(c *wk.Ctx) []c06plan {
 	var out []c06plan
-	maxZ := c.Pick(1, 2)
+	maxZ := 2 // searching a two-zero-byte corner costs well under a second
 	for _, f := range c06Fields {
 		for z := 1; z <= maxZ; z++ {
 			out = append(out, c06plan{Kind: "corner", Field: f, Zeros: z})
@@ -215,6 +215,17 @@ func c06case(c *wk.Ctx, idx int, r *rand.Rand, pl c06plan, t *rngTee) {
 	if err != nil {
 		c.Viol("C06", idx, "new-client", err.Error(), nil)
 		return
+	}
+	// schedule dimension: in a third of the exchanges the handshake goroutine is held between sending a step and
+	// waiting for its answer (the answer is then decoded before anybody waits for it), in another third the
+	// receive loop is held before handing the answer over
+	switch idx % 3 {
+	case 1:
+		theHooks.start(rand.New(rand.NewSource(int64(idx))), map[string]int{"call.sent": hookAlways + 3000}, nil)
+		defer theHooks.stop()
+	case 2:
+		theHooks.start(rand.New(rand.NewSource(int64(idx))), map[string]int{"recv.frame": hookAlways + 2000, "send.written": 2000}, nil)
+		defer theHooks.stop()
 	}
 	var cerr error
 	var pan bool
